@@ -120,5 +120,8 @@ class Events(SysTarget):
         return None
 
 
-TARGETS = {"codebasin.preprocessor:IncludeNode.evaluate_for_platform":
+import native.C13 as _C13      # noqa: E402
+
+TARGETS = {"codebasin.config:load_database#sequences": _C13.Sequences(),       # one warning per occurrence (unknown compiler per entry)
+           "codebasin.preprocessor:IncludeNode.evaluate_for_platform":
            Events("events", ("missing", "unknown", "multi"), quick_n=250, thorough_n=4000)}
